@@ -26,8 +26,17 @@ def tracked_only():
             del CHECKS[pid]
 
 
+def held():
+    """vlib/hold.txt: ids whose checks exist but are not published yet (one per line)."""
+    f = os.path.join(HERE, "vlib", "hold.txt")
+    if os.path.exists(f):
+        for pid in open(f).read().split():
+            CHECKS.pop(pid, None)
+
+
 def main():
     tracked_only()
+    held()
     checks = []
     for pid in ALL:
         c = CHECKS.get(pid)
